@@ -4,6 +4,7 @@ import GoMailModel.Proofs.Wrap
 import GoMailModel.Proofs.Fold
 import GoMailModel.Proofs.QPLines
 import GoMailModel.Generated.Const
+import GoMailModel.Mime.Render
 /-
   C18 — Generated output obeys Internet-message line discipline.
   Property theorems only; helper lemmas live in GoMailModel/Proofs.
@@ -81,5 +82,33 @@ example : wrap76 (List.replicate 80 65) = List.replicate 76 65 ++ crlf ++ (List.
 /-- non-vacuity: 100 literal bytes give a soft-broken 76-byte line and a rest -/
 example : QP.encodeBytes (List.replicate 100 65) =
     List.replicate 75 65 ++ [61, 13, 10] ++ List.replicate 25 65 := by decide +kernel
+
+/-- the header line `startMP` writes for the outermost layer of an S/MIME signed message, up to its
+    first CRLF -/
+def signedContentTypeLine : Bytes := sb "Content-Type: multipart/" ++ Mime.mimeSigned ++ sb ";"
+
+/-- **KNOWN FINDING `c18-signed-content-type-line`** (the property is false of the code here, and of
+    the model): at depth 0 the model's `startMP` - like the source's - writes the Content-Type field of
+    the signed layer itself, not through `writeHeader`: whatever the boundary, the write is the line
+    below, CRLF, and the folded boundary parameter ... -/
+theorem signed_layer_write (given fresh : Bytes) (p : Mime.PW) (h : p.stack = []) :
+    ∃ pre bnd, (p.startMP Mime.mimeSigned given fresh).1.acts =
+      p.acts ++ [.w pre (signedContentTypeLine ++ crlf ++ sb " boundary=" ++ bnd)] := by
+  refine ⟨if given.isEmpty then none else some (!Mime.validBoundary given),
+    if given.isEmpty then fresh else if Mime.validBoundary given then given else fresh, ?_⟩
+  have hd : p.depth = 0 := by simp [Mime.PW.depth, h]
+  have hb : sb "Content-Type: " ++ (sb "multipart/" ++ Mime.mimeSigned ++ sb ";\r\n boundary=") =
+      signedContentTypeLine ++ crlf ++ sb " boundary=" := by decide
+  simp only [Mime.PW.startMP, hd, beq_self_eq_true, if_true]
+  rw [← hb]
+  simp [List.append_assoc]
+
+/-- ... and that line has 87 bytes and contains blanks: longer than 78 and not a single token. This is
+    the line every signed rendering carries (the harness reproduces it on every run: suite `c18-signed`). -/
+theorem counterexample_signed_content_type_line :
+    signedContentTypeLine.length = 87 ∧ (32 : UInt8) ∈ signedContentTypeLine ∧
+    signedContentTypeLine =
+      sb "Content-Type: multipart/signed; protocol=\"application/pkcs7-signature\"; micalg=sha-256;" := by
+  decide
 
 end GoMail.Props.C18
